@@ -164,7 +164,7 @@ func (e *Engine) runVC(vc *VC, fn *ssa.Function, fc *FuncContract, splitVals []i
 		}
 	}
 	for _, r := range fc.Requires {
-		vc.assume(env.evalBool(r.E))
+		env.assumeClause("true", r.E)
 	}
 	for _, r := range fc.Requires {
 		// (after assuming them unsimplified) learn  location == constant  facts
